@@ -9,12 +9,12 @@ CONSTANTS
   RecvWin = 4
   MaxBuf = 4
   MaxSend0 = 1
-  NCall = 2
-  NApp = 1
+  NCall = 3
+  NApp = 2
   NPeer = 2
   MaxData = 1
-  CallKinds = {"poll_ready", "poll_reset"}
-  AppKinds = {"request", "request_keep", "send_reset", "drop_send", "drop_recv"}
+  CallKinds = {"poll_ready", "poll_reset", "poll_capacity"}
+  AppKinds = {"request", "request_keep", "send_data", "send_reset", "drop_send", "drop_recv"}
   PeerKinds = {"SET_MAXC", "HEADERS", "RST", "EOF"}
   IwsVals = {}
   MaxcVals = {0, 2}
